@@ -213,10 +213,11 @@ RECURSIVE DCE(_, _)
 RECURSIVE OptSub(_, _)
 DCE(st, u) ==
     IF st.desc[u] # {} THEN [st |-> st, done |-> FALSE]
-    ELSE LET s1 == FoldLeft(LAMBDA s, x :
+    ELSE LET s1 == FoldLeft(LAMBDA s, j :          \* the CURRENT j-th input: optimising one input may replace another
+                        LET x == s.nodes[u].ins[j] IN
                         IF DirectU(s, x) /\ s.desc[x[2]] # {} /\ u \in s.desc[x[2]]
                         THEN Optimize([s EXCEPT !.desc[x[2]] = @ \ {u}], x[2]) ELSE s,
-                        st, st.nodes[u].ins)
+                        st, [j \in 1..Len(st.nodes[u].ins) |-> j])
          IN [st |-> RemoveU(s1, u), done |-> TRUE]
 OptSub(st, u) ==
     LET a == st.nodes[u].ins[1]
